@@ -29,6 +29,7 @@ type pingSpec struct {
 	// arrival plan
 	matchAt time.Duration // <0: no matching reply
 	ipopts  bool          // IPv4 only: the peer's datagrams carry IP options
+	datalen int           // 0: the peer echoes the data; 1: no data; 2: one byte; 3: padded to 1215 bytes
 	extras  []pingExtra
 	// results
 	id   uint16
@@ -45,7 +46,18 @@ type pingExtra struct {
 }
 
 func echoFrame(nic mon.NIC, p *pingSpec, typ4, typ6 byte, id uint16, truncate bool) []byte {
-	body := refdec.EchoBody(id, 1, []byte("HELLO-NETFILTER"))
+	// the peer echoes the data it got, or part of it, or none (the match is on the identifier: an echo message of 8 bytes, without
+	// data, is the smallest valid one), or pads it
+	data := []byte("HELLO-NETFILTER")
+	switch p.datalen {
+	case 1:
+		data = data[:0]
+	case 2:
+		data = data[:1]
+	case 3:
+		data = append(data, make([]byte, 1200)...)
+	}
+	body := refdec.EchoBody(id, 1, data)
 	host := toMAC(nic.HostMAC)
 	if p.v6 {
 		msg := refdec.ICMP6(p.dst, nic.HostLLA, typ6, 0, body)
@@ -105,6 +117,7 @@ func c19Scenario(c *wk.Ctx, idx int64, r *rand.Rand) (nontrivial string, viol bo
 		}
 		p.sendErr = r.Intn(10) == 0
 		p.ipopts = !p.v6 && r.Intn(3) == 0
+		p.datalen = []int{0, 0, 0, 1, 2, 3}[r.Intn(6)]
 		p.matchAt = -1
 		switch r.Intn(5) {
 		case 4:
@@ -131,7 +144,7 @@ func c19Scenario(c *wk.Ctx, idx int64, r *rand.Rand) (nontrivial string, viol bo
 	cs := func() map[string]any {
 		var ps []string
 		for _, p := range pings {
-			ps = append(ps, fmt.Sprintf("{v6=%v dst=%v timeout=%v sendErr=%v ipoptions=%v matchAt=%v extras=%v -> id=%d err=%v returned@%v}", p.v6, p.dst, p.timeout, p.sendErr, p.ipopts, p.matchAt, p.extras, p.id, p.err, p.done))
+			ps = append(ps, fmt.Sprintf("{v6=%v dst=%v timeout=%v sendErr=%v ipoptions=%v echo-data=%d matchAt=%v extras=%v -> id=%d err=%v returned@%v}", p.v6, p.dst, p.timeout, p.sendErr, p.ipopts, p.datalen, p.matchAt, p.extras, p.id, p.err, p.done))
 		}
 		return map[string]any{"index": idx, "pings": ps}
 	}
